@@ -10,6 +10,7 @@ import (
 	"context"
 	"fmt"
 	"strings"
+	"sync/atomic"
 	"time"
 
 	"mellium.im/xmpp/history"
@@ -69,8 +70,12 @@ func (w *world) channel() *muc.Channel {
 // op performs one application-side operation. It reports false when Serve
 // stopped answering (the sequence is abandoned and the oracle decides).
 func (w *world) op(name string) bool {
-	if name == "@barrier" {
+	switch name {
+	case "@barrier":
 		return w.barrier()
+	case "@out-release": // no barrier: nothing the session writes gets through before this
+		w.gate.release()
+		return true
 	}
 	// operations see the state left by everything the peer sent before them
 	if !w.barrier() {
@@ -105,18 +110,34 @@ func (w *world) op(name string) bool {
 			w.note("ALClose")
 		}
 	case "@ibb-expect":
+		// a second call for the same session supersedes the first (the library
+		// cancels it): wait until the superseded call has returned
 		if w.lst != nil && w.lstOpen {
 			ctx, cancel := context.WithCancel(w.ctx)
 			w.expCancel = cancel
 			l := w.lst
-			go func() { _, _ = l.Expect(ctx, peerFull, "s1") }()
-			time.Sleep(time.Millisecond)
+			before := atomic.LoadInt32(&w.expLive)
+			atomic.AddInt32(&w.expLive, 1)
+			w.note("AEExpect")
+			go func() {
+				_, _ = l.Expect(ctx, peerFull, "s1")
+				atomic.AddInt32(&w.expLive, -1)
+			}()
+			deadline := time.Now().Add(2 * time.Second)
+			for before > 0 && atomic.LoadInt32(&w.expLive) > 1 && time.Now().Before(deadline) {
+				time.Sleep(200 * time.Microsecond)
+			}
+			time.Sleep(2 * time.Millisecond) // let the new call register
 		}
 	case "@ibb-expect-cancel":
 		if w.expCancel != nil {
 			w.expCancel()
 			w.expCancel = nil
-			time.Sleep(time.Millisecond)
+			w.note("AECancel")
+			deadline := time.Now().Add(2 * time.Second)
+			for atomic.LoadInt32(&w.expLive) > 0 && time.Now().Before(deadline) {
+				time.Sleep(200 * time.Microsecond)
+			}
 		}
 	case "@ibb-conn-close":
 		w.stMu.Lock()
@@ -171,18 +192,32 @@ func (w *world) op(name string) bool {
 			w.histIDs = nil // the query is no longer tracked: later results go to the inner handler
 			w.stMu.Unlock()
 		}
-	case "@rcpt-send":
+	case "@rcpt-send", "@rcpt-send-held":
+		if name == "@rcpt-send-held" {
+			// the peer stops reading: the call registers the message and then parks
+			// in the write, so it cannot consume the receipt's signal yet
+			w.gate.holdWrites()
+		}
 		ctx, cancel := context.WithCancel(w.ctx)
 		w.rcptCancel = cancel
+		w.note("ARSend")
 		go func() {
 			_ = w.rcpt.SendMessageElement(ctx, w.sess, nil, stanza.Message{ID: "r1", To: remoteJID, Type: stanza.ChatMessage})
+			w.note("ARGone")
 		}()
-		w.settle()
+		if name == "@rcpt-send-held" {
+			deadline := time.Now().Add(2 * time.Second)
+			for atomic.LoadInt32(&w.gate.waiting) == 0 && time.Now().Before(deadline) {
+				time.Sleep(200 * time.Microsecond)
+			}
+		} else {
+			w.settle()
+		}
 	case "@rcpt-cancel":
 		if w.rcptCancel != nil {
 			w.rcptCancel()
 			w.rcptCancel = nil
-			time.Sleep(time.Millisecond)
+			time.Sleep(2 * time.Millisecond)
 		}
 	}
 	return true
